@@ -14,6 +14,7 @@ import (
 	"testing"
 
 	"filippo.io/edwards25519"
+	blst "github.com/supranational/blst/bindings/go"
 
 	"github.com/ava-labs/hypersdk/chain"
 	"github.com/ava-labs/hypersdk/codec"
@@ -71,27 +72,114 @@ func c17Schemes() map[string]*c17Scheme {
 			name: "bls", id: BLSID, pkLen: bls.PublicKeyLen, sigLen: bls.SignatureLen, size: BLSSize,
 			unmarshal: UnmarshalBLS,
 			addrOf: func(pk []byte) (codec.Address, bool) {
-				p, err := bls.PublicKeyFromBytes(pk)
-				if err != nil {
+				if !c17BLSPkValid(pk) {
 					return codec.Address{}, false
 				}
-				return NewBLSAddress(p), true
+				return NewBLSAddress(new(blst.P1Affine).Uncompress(pk)), true
 			},
+			// the pairing equation on whatever decompresses (no subgroup / infinity checks):
+			// the group parameter, evaluated on blst directly and not through crypto/bls' decoders
 			groupOK: func(pk, sig, msg []byte) bool {
-				p, err := bls.PublicKeyFromBytes(pk)
-				if err != nil {
+				if len(pk) != bls.PublicKeyLen || len(sig) != bls.SignatureLen {
 					return false
 				}
-				s, err := bls.SignatureFromBytes(sig)
-				if err != nil {
+				p := new(blst.P1Affine).Uncompress(pk)
+				s := new(blst.P2Affine).Uncompress(sig)
+				if p == nil || s == nil {
 					return false
 				}
 				return bls.Verify(msg, p, s)
 			},
-			pkValid: func(b []byte) bool { _, err := bls.PublicKeyFromBytes(b); return err == nil },
-			sigOK:   func(b []byte) bool { _, err := bls.SignatureFromBytes(b); return err == nil },
+			pkValid: c17BLSPkValid,
+			sigOK:   c17BLSSigValid,
 		},
 	}
+}
+
+// validPk: the bytes decompress to a point of the prime-order subgroup G1 other than infinity
+// (blst KeyValidate), evaluated on blst directly — independent of crypto/bls.PublicKeyFromBytes.
+func c17BLSPkValid(b []byte) bool {
+	if len(b) != bls.PublicKeyLen {
+		return false
+	}
+	p := new(blst.P1Affine).Uncompress(b)
+	return p != nil && p.KeyValidate()
+}
+
+// validSig: decompresses to a point of G2 (infinity allowed, as in avalanchego's SigValidate(false))
+func c17BLSSigValid(b []byte) bool {
+	if len(b) != bls.SignatureLen {
+		return false
+	}
+	p := new(blst.P2Affine).Uncompress(b)
+	return p != nil && p.SigValidate(false)
+}
+
+// a point of E1(Fp) outside the prime-order subgroup: [r]P for a decompressible P not in G1
+func c17CofactorPoint(seed byte) *blst.P1 {
+	order, _ := new(big.Int).SetString("73eda753299d7d483339d80809a1d80553bda402fffe5bfeffffffff00000001", 16)
+	le := c17PutLE(order, 32)
+	for i := 0; i < 256; i++ {
+		h := sha256.Sum256([]byte{seed, byte(i)})
+		buf := make([]byte, bls.PublicKeyLen)
+		copy(buf[16:], h[:])
+		buf[0] = 0x80
+		p := new(blst.P1Affine).Uncompress(buf)
+		if p == nil {
+			continue
+		}
+		var pp blst.P1
+		pp.FromAffine(p)
+		tp := pp.Mult(le)
+		if tp.ToAffine().InG1() {
+			continue
+		}
+		return tp
+	}
+	panic("no cofactor point")
+}
+
+// an on-curve point with a G1 component and a cofactor component (not multiplied by r)
+func c17NonSubgroupPoint(seed byte) []byte {
+	for i := 0; i < 256; i++ {
+		h := sha256.Sum256([]byte{seed, 0xee, byte(i)})
+		buf := make([]byte, bls.PublicKeyLen)
+		copy(buf[16:], h[:])
+		buf[0] = 0x80
+		if p := new(blst.P1Affine).Uncompress(buf); p != nil && !p.InG1() {
+			return buf
+		}
+	}
+	panic("no point")
+}
+
+// (pk, r‖s) such that (r, s) satisfies the ECDSA equation over msg for pk, for a chosen s:
+// d = (s·k − z)·r⁻¹ mod n.
+func c17CraftSecp(msg []byte, k, s *big.Int) (pk []byte, r *big.Int, ok bool) {
+	curve := elliptic.P256()
+	n := curve.Params().N
+	d := sha256.Sum256(msg)
+	z := new(big.Int).SetBytes(d[:])
+	rx, _ := curve.ScalarBaseMult(k.FillBytes(make([]byte, 32)))
+	r = new(big.Int).Mod(rx, n)
+	if r.Sign() == 0 {
+		return nil, nil, false
+	}
+	x := new(big.Int).Mul(s, k)
+	x.Sub(x, z)
+	x.Mul(x, new(big.Int).ModInverse(r, n))
+	x.Mod(x, n)
+	if x.Sign() == 0 {
+		return nil, nil, false
+	}
+	var priv secp256r1.PrivateKey
+	x.FillBytes(priv[:])
+	pub := priv.PublicKey()
+	return pub[:], r, true
+}
+
+func c17RS(r, s *big.Int) []byte {
+	return append(r.FillBytes(make([]byte, 32)), s.FillBytes(make([]byte, 32))...)
 }
 
 // the ZIP-215 group equation [8]([s]B - [k]A - R) == 0 with s taken mod l: a function of the
@@ -223,6 +311,74 @@ func c17Generate(r *verifh.Run) []string {
 	var lines []string
 	scs := c17Schemes()
 	n := elliptic.P256().Params().N
+	// --- boundary table for the P-256 low-s rule: signatures constructed for a chosen s
+	// (the key is solved for), at ⌊n/2⌋ exactly, just above, through the whole window up to
+	// 2^255 and beyond; each low/high pair goes through the real unmarshaler and Auth.Verify.
+	{
+		sc := scs["secp256r1"]
+		half := new(big.Int).Rsh(n, 1)
+		two255 := new(big.Int).Lsh(big.NewInt(1), 255)
+		var highs []*big.Int
+		for _, off := range []int64{1, 2, 3, 0xdeadbeef} {
+			highs = append(highs, new(big.Int).Add(half, big.NewInt(off)))
+		}
+		for _, sh := range []uint{64, 128, 200, 222} {
+			highs = append(highs, new(big.Int).Add(half, new(big.Int).Lsh(big.NewInt(1), sh)))
+		}
+		highs = append(highs, new(big.Int).Sub(two255, big.NewInt(1)), new(big.Int).Set(two255),
+			new(big.Int).Add(two255, big.NewInt(1)), new(big.Int).Sub(n, big.NewInt(1)), new(big.Int).Sub(n, big.NewInt(2)))
+		win := new(big.Int).Sub(two255, half)
+		for i := 0; i < r.N(6, 60); i++ {
+			off := new(big.Int).Mod(new(big.Int).SetBytes(r.RNG.Bytes(32)), win)
+			highs = append(highs, new(big.Int).Add(half, off.Add(off, big.NewInt(1))))
+		}
+		for i := 0; i < r.N(4, 40); i++ { // anywhere above the half order
+			off := new(big.Int).Mod(new(big.Int).SetBytes(r.RNG.Bytes(32)), half)
+			highs = append(highs, new(big.Int).Add(half, off.Add(off, big.NewInt(1))))
+		}
+		for i, hs := range highs {
+			msg := r.RNG.Bytes(1 + r.RNG.Intn(64))
+			k := new(big.Int).SetBytes(r.RNG.Bytes(31))
+			k.Add(k, big.NewInt(int64(i+1)))
+			pk, rr, ok := c17CraftSecp(msg, k, hs)
+			if !ok {
+				continue
+			}
+			low := new(big.Int).Sub(n, hs) // ≤ ⌊n/2⌋: the canonical twin
+			lines = append(lines, c17SigLine("orig", sc, "crafted-low-s", pk, c17RS(rr, low), msg))
+			lines = append(lines, c17SigLine("mut", sc, "crafted-n-s", pk, c17RS(rr, hs), msg))
+		}
+		// s exactly ⌊n/2⌋ (must be accepted) next to ⌊n/2⌋+1 = n − ⌊n/2⌋ (must be rejected)
+		for i := 0; i < 3; i++ {
+			msg := r.RNG.Bytes(8)
+			k := new(big.Int).SetBytes(r.RNG.Bytes(30))
+			k.Add(k, big.NewInt(7))
+			if pk, rr, ok := c17CraftSecp(msg, k, half); ok {
+				lines = append(lines, c17SigLine("orig", sc, "crafted-s=half", pk, c17RS(rr, half), msg))
+				lines = append(lines, c17SigLine("mut", sc, "crafted-s=half+1", pk, c17RS(rr, new(big.Int).Sub(n, half)), msg))
+			}
+		}
+	}
+	// --- BLS public keys / signatures that decompress but are not valid group elements
+	{
+		sc := scs["bls"]
+		inf1 := make([]byte, bls.PublicKeyLen)
+		inf1[0] = 0xc0
+		inf2 := make([]byte, bls.SignatureLen)
+		inf2[0] = 0xc0
+		for seed := byte(0); seed < byte(r.N(3, 12)); seed++ {
+			tp := c17CofactorPoint(seed).ToAffine().Compress()
+			for _, msg := range [][]byte{{}, []byte("transfer everything"), r.RNG.Bytes(40)} {
+				lines = append(lines, c17SigLine("mut", sc, "cofactor-pk-identity-sig", tp, inf2, msg))
+			}
+			lines = append(lines, c17UnmLine(sc, append(append([]byte{sc.id}, tp...), inf2...)))
+			ns := c17NonSubgroupPoint(seed)
+			lines = append(lines, c17SigLine("mut", sc, "non-subgroup-pk-identity-sig", ns, inf2, []byte{1}))
+			lines = append(lines, c17UnmLine(sc, append(append([]byte{sc.id}, ns...), inf2...)))
+		}
+		lines = append(lines, c17SigLine("mut", sc, "infinity-pk-identity-sig", inf1, inf2, []byte("x")),
+			c17UnmLine(sc, append(append([]byte{sc.id}, inf1...), inf2...)))
+	}
 	for _, name := range []string{"ed25519", "secp256r1", "bls"} {
 		sc := scs[name]
 		nOrig := r.N(16, 120)
@@ -319,6 +475,22 @@ func c17Generate(r *verifh.Run) []string {
 				copy(m[:32], zero)
 				mut("r=0", pk, m)
 			case "bls":
+				// the honest key shifted by points outside the subgroup, the identity signature,
+				// the infinity key
+				if hp := new(blst.P1Affine).Uncompress(pk); hp != nil {
+					for seed := byte(0); seed < 2; seed++ {
+						var pp blst.P1
+						pp.FromAffine(hp)
+						mut(fmt.Sprintf("pk+cofactor%d", seed), pp.Add(c17CofactorPoint(seed)).ToAffine().Compress(), sig)
+					}
+				}
+				inf2 := make([]byte, bls.SignatureLen)
+				inf2[0] = 0xc0
+				mut("identity-sig", pk, inf2)
+				inf1 := make([]byte, bls.PublicKeyLen)
+				inf1[0] = 0xc0
+				mut("infinity-pk", inf1, sig)
+				mut("infinity-pk-identity-sig", inf1, inf2)
 				for _, bit := range []byte{0x80, 0x40, 0x20} {
 					m := c17Clone(sig)
 					m[0] ^= bit
@@ -452,6 +624,12 @@ func TestVerifC17(t *testing.T) {
 			ab := a.Bytes()
 			r.Emit(l, "ok "+verifh.Hex(ab[1:1+sc.pkLen])+" "+verifh.Hex(ab[1+sc.pkLen:]))
 			r.Count("unm:ok")
+			if !sc.pkValid(b[1 : 1+sc.pkLen]) {
+				r.Violation("invalid-pubkey-accepted-"+sc.name, "the unmarshaler admits a public key that is not a valid group element: %s", l)
+			}
+			if !sc.sigOK(b[1+sc.pkLen:]) {
+				r.Violation("invalid-signature-point-accepted-"+sc.name, "%s", l)
+			}
 			if !bytes.Equal(ab, b) {
 				r.Violation("auth-roundtrip-"+sc.name, "Unmarshal(b).Bytes() != b for %s", l)
 			}
@@ -508,6 +686,12 @@ func TestVerifC17(t *testing.T) {
 				verified = a.Verify(ctx, msg) == nil
 				r.Emit(l, fmt.Sprint(verified))
 				r.Count("ver:" + fmt.Sprint(verified))
+			}
+			if err == nil && !sc.pkValid(pk) {
+				r.Violation("invalid-pubkey-accepted-"+sc.name, "public key outside the group admitted by the unmarshaler (verify=%v): %s", verified, l)
+			}
+			if verified && !sc.pkValid(pk) {
+				r.Violation("invalid-pubkey-verifies-"+sc.name, "a signature verifies under a public key that is not a valid group element: %s", l)
 			}
 			kind := f[2]
 			if i := strings.LastIndexByte(kind, '-'); i > 0 && (strings.HasPrefix(kind, "sig-byte") || strings.HasPrefix(kind, "pk-byte")) {
